@@ -118,8 +118,12 @@ def make_layer(ld):
   kw = dict(ld.get("kw", {}))
   for slot, spec in ld.get("q", {}).items():
     kw[slot] = mkq(spec)
+  mdt = kw.pop("mask_dtype", "float32")
   if kw.get("mask") is not None:
-    kw["mask"] = np.array(kw["mask"], dtype=np.float32)
+    kw["mask"] = np.array(kw["mask"], dtype={"float32": np.float32,
+                                             "float64": np.float64,
+                                             "int32": np.int32,
+                                             "bool": np.bool_}[mdt])
   cls = _layer_class(ld["cls"])
   if ld["cls"] == "QBidirectional":
     inner = make_layer(ld["inner"])
@@ -597,6 +601,22 @@ class Gen(object):
         out.append(-(-s // stride))
     return ks, st_, dl, padding, out
 
+  def draw_mask(self, kw, ks):
+    """"Optional mask for kernel weights": any (h, w) array the kernel is
+    multiplied by - 0/1 patterns, fractional and large weights, int / bool."""
+    kind = self.pick(["binary", "frac", "frac", "big", "int", "bool", "float64"])
+    if kind in ("binary", "bool"):
+      vals = [0, 1]
+    elif kind in ("frac", "float64"):
+      vals = [0.0, 0.25, 0.5, 1.0, 0.75, 1.5]
+    elif kind == "big":
+      vals = [0.0, 1.0, 130.0, 300.0, 2.5]
+    else:
+      vals = [0, 1, 2, 3, 200]
+    kw["mask"] = [[self.pick(vals) for _ in range(ks[1])] for _ in range(ks[0])]
+    if kind in ("int", "bool", "float64"):
+      kw["mask_dtype"] = {"int": "int32", "bool": "bool", "float64": "float64"}[kind]
+
   def l_qconv2d(self, shape, src, cls="QConv2D"):
     h, w, c = shape
     ks, st_, dl, padding, out = self._conv_geom(2, [h, w])
@@ -606,7 +626,7 @@ class Gen(object):
     q = {"kernel_quantizer": self.wq(), "bias_quantizer": self.wq(kernel=False),
          "activation": self.aq()}
     if cls == "QConv2D" and self.chance(4):
-      kw["mask"] = [[self.i(0, 1) for _ in range(ks[1])] for _ in range(ks[0])]
+      self.draw_mask(kw, ks)
     if cls == "QConv2DBatchnorm":
       kw["folding_mode"] = self.pick(["ema_stats_folding", "batch_stats_folding"])
       kw["use_bias"] = self.b()
@@ -624,7 +644,7 @@ class Gen(object):
   def l_qdwconv2d(self, shape, src, cls="QDepthwiseConv2D"):
     h, w, c = shape
     ks, st_, dl, padding, out = self._conv_geom(2, [h, w])
-    dm = self.i(1, 2)
+    dm = self.i(1, 3)
     # DepthwiseConv2D wants equal strides in both dimensions
     st_ = [st_[0], st_[0]]
     if padding == "valid":
@@ -659,7 +679,7 @@ class Gen(object):
     filters = self.i(1, 4)
     kw = {"filters": filters, "kernel_size": ks, "strides": st_,
           "padding": padding, "dilation_rate": dl,
-          "depth_multiplier": self.i(1, 2), "use_bias": self.b()}
+          "depth_multiplier": self.i(1, 3), "use_bias": self.b()}
     q = {"depthwise_quantizer": self.wq(), "pointwise_quantizer": self.wq(),
          "bias_quantizer": self.wq(kernel=False), "activation": self.aq()}
     ld = {"name": self.name("QSeparableConv2D"), "cls": "QSeparableConv2D",
@@ -668,7 +688,7 @@ class Gen(object):
 
   def l_qavgpool(self, shape, src):
     h, w, c = shape
-    p = [self.i(1, min(2, h)), self.i(1, min(2, w))]
+    p = [self.i(1, min(3, h)), self.i(1, min(3, w))]
     padding = self.pick(["valid", "same"])
     strides = None if self.b() else [self.i(1, 2), self.i(1, 2)]
     s = strides or p
@@ -677,6 +697,8 @@ class Gen(object):
     else:
       out = [-(-h // s[0]), -(-w // s[1])]
     kw = {"pool_size": p, "strides": strides, "padding": padding}
+    if p[0] == p[1] and self.b():
+      kw["pool_size"] = p[0]            # the int form
     q = {"average_quantizer": self.pick(
         [None, "b", "b"]) and
          {"q": "quantized_bits",
@@ -758,12 +780,14 @@ class Gen(object):
       kw["po2_rounding"] = True
     if act == "quantized_relu" and self.chance(3):
       kw["relu_neg_slope"] = self.pick([0.25, 0.125])
+    if act == "quantized_relu" and self.chance(6):
+      kw["relu_upper_bound"] = self.pick([0.5, 1.0, 6.0])
     if self.chance(3):
       kw["quantization_delay"] = self.i(1, 100)
     if self.chance(3):
       kw["ema_freeze_delay"] = self.i(1, 100)
     if self.chance(3):
-      kw["ema_decay"] = 0.99
+      kw["ema_decay"] = self.pick([0.99, 0.9, 0.5])
     if self.chance(3):
       kw["current_step"] = self.i(0, 20)
     ld = {"name": self.name("QAdaptiveActivation"), "cls": "QAdaptiveActivation",
@@ -805,7 +829,7 @@ class Gen(object):
     filters = self.i(1, 4)
     kw = {"filters": filters, "kernel_size": ks[0], "strides": st_[0],
           "padding": padding, "dilation_rate": dl[0],
-          "depth_multiplier": self.i(1, 2), "use_bias": self.b()}
+          "depth_multiplier": self.i(1, 3), "use_bias": self.b()}
     q = {"depthwise_quantizer": self.wq(), "pointwise_quantizer": self.wq(),
          "bias_quantizer": self.wq(kernel=False), "activation": self.aq()}
     ld = {"name": self.name("QSeparableConv1D"), "cls": "QSeparableConv1D",
@@ -888,6 +912,38 @@ class Gen(object):
             "recurrent_activation": self.pick(["hard_sigmoid", "sigmoid"])}
       osh = [shape[0], kw["units"]]
     return {"name": self.name(k), "cls": k, "in": [src], "kw": kw, "q": {}}, osh
+
+
+_CONV_EXTRAS = {"kernel_range": 1.5, "bias_range": 2.5, "kernel_regularizer": "l2",
+                "bias_regularizer": "l1", "activity_regularizer": "l1",
+                "kernel_constraint": "non_neg", "bias_constraint": "max_norm",
+                "kernel_initializer": "glorot_uniform", "bias_initializer": "ones"}
+_DW_EXTRAS = {"depthwise_range": 1.5, "bias_range": 2.5,
+              "depthwise_regularizer": "l2", "depthwise_constraint": "non_neg",
+              "depthwise_initializer": "glorot_uniform", "bias_initializer": "ones"}
+_SEP_EXTRAS = {"depthwise_regularizer": "l2", "pointwise_regularizer": "l1",
+               "depthwise_constraint": "non_neg", "pointwise_constraint": "max_norm",
+               "depthwise_initializer": "he_normal", "bias_initializer": "ones"}
+_RNN_EXTRAS = {"dropout": 0.25, "recurrent_dropout": 0.5, "kernel_regularizer": "l2",
+               "recurrent_regularizer": "l1", "recurrent_constraint": "non_neg",
+               "recurrent_initializer": "glorot_uniform", "bias_initializer": "ones"}
+# plain constructor options whose values have to survive a round trip even
+# though most of them do not act on inference (type / precision / exceptions)
+LAYER_EXTRAS = {
+    "QDense": _CONV_EXTRAS, "QConv1D": _CONV_EXTRAS, "QConv2D": _CONV_EXTRAS,
+    "QDepthwiseConv2D": _DW_EXTRAS,
+    "QSeparableConv1D": _SEP_EXTRAS, "QSeparableConv2D": _SEP_EXTRAS,
+    "QSimpleRNN": _RNN_EXTRAS, "QLSTM": _RNN_EXTRAS, "QGRU": _RNN_EXTRAS,
+    "QBatchNormalization": {"momentum": 0.9, "beta_range": 1.5, "gamma_range": 2.0,
+                            "gamma_regularizer": "l2", "beta_constraint": "non_neg",
+                            "beta_initializer": "ones"},
+    "QConv2DBatchnorm": {"momentum": 0.9, "kernel_regularizer": "l2",
+                         "bias_initializer": "ones", "gamma_regularizer": "l1"},
+    "QDepthwiseConv2DBatchnorm": {"momentum": 0.9, "depthwise_regularizer": "l2",
+                                  "beta_initializer": "ones"},
+    "QScaleShift": {"weight_regularizer": "l2", "bias_regularizer": "l1",
+                    "weight_initializer": "ones"},
+}
 
 
 def _merge(g, layers, shapes, cur, prev_names):
@@ -1059,6 +1115,12 @@ def model_strategy(profile="c13", rich=False, family=None):
             "QActivation", "QAdaptiveActivation", "QAveragePooling2D",
             "QGlobalAveragePooling2D") and g.chance(6):
           ld["kw"]["trainable"] = False
+      for ld in layers:
+        ex = LAYER_EXTRAS.get(ld["cls"])
+        if ex and g.chance(4):
+          for key in sorted(ex):
+            if g.chance(3):
+              ld["kw"][key] = ex[key]
     return {"input": shapes["in"], "layers": layers, "out": cur,
             "family": fam,
             "wseed": g.i(0, 10 ** 6), "wscale": g.pick([1.0, 0.25, 3.0]),
@@ -1113,12 +1175,11 @@ def freeze_chain_strategy():
         ld, osh = g.l_qconv2d(sh, cur)
         ld["q"] = {"kernel_quantizer": kq(), "bias_quantizer": bq(),
                    "activation": None}
+        ld["kw"].pop("mask_dtype", None)
         if not g.chance(3):
           ld["kw"].pop("mask", None)
         else:
-          ks = ld["kw"]["kernel_size"]
-          ld["kw"]["mask"] = [[g.i(0, 1) for _ in range(ks[1])]
-                              for _ in range(ks[0])]
+          g.draw_mask(ld["kw"], ld["kw"]["kernel_size"])
       elif k == "dw":
         ld, osh = g.l_qdwconv2d(sh, cur)
         ld["q"] = {"depthwise_quantizer": kq(), "bias_quantizer": bq(),
@@ -1223,7 +1284,9 @@ def canonical_models(profile):
   ms.append(_desc([5, 5, 2], [
       ("QConv2D", {"filters": 3, "kernel_size": [2, 3], "strides": [1, 1],
                    "padding": "same", "dilation_rate": [2, 1], "use_bias": True,
-                   "mask": [[1, 0, 1], [0, 1, 1]]},
+                   "mask": [[0.25, 0, 1.5], [0.5, 1, 200.0]],
+                   "kernel_range": 1.5, "bias_range": 2.5,
+                   "kernel_regularizer": "l2", "bias_constraint": "max_norm"},
        {"kernel_quantizer": auto, "bias_quantizer": fx, "activation": relu}),
       ("QBatchNormalization", {"epsilon": 0.01}, {}),
       ("QAveragePooling2D", {"pool_size": [2, 1], "strides": [1, 2], "padding": "same"},
@@ -1235,8 +1298,8 @@ def canonical_models(profile):
         "activation": {"s": "quantized_tanh(5)"}})], "image", 1))
   ms.append(_desc([6, 5, 2], [
       ("QDepthwiseConv2D", {"kernel_size": [2, 2], "strides": [2, 2], "padding": "same",
-                            "depth_multiplier": 2, "use_bias": True,
-                            "dilation_rate": [1, 1]},
+                            "depth_multiplier": 3, "use_bias": True,
+                            "dilation_rate": [1, 1], "depthwise_range": 1.5},
        {"depthwise_quantizer": auto, "bias_quantizer": po2, "activation": None}),
       ("QBatchNormalization", {},
        {"gamma_quantizer": None, "variance_quantizer": None,
@@ -1266,9 +1329,10 @@ def canonical_models(profile):
   # residual / non-fusable placement
   ms.append(_desc([4, 4, 2], [
       ("QConv2D", {"filters": 2, "kernel_size": [1, 1], "strides": [1, 1],
-                   "padding": "same", "dilation_rate": [1, 1], "use_bias": True},
+                   "padding": "same", "dilation_rate": [1, 1], "use_bias": True,
+                   "mask": [[3]], "mask_dtype": "int32"},
        {"kernel_quantizer": fx, "bias_quantizer": fx, "activation": None}),
-      ("QBatchNormalization", {}, {}),
+      ("QBatchNormalization", {"momentum": 0.9}, {}),
       ("Add", {"__in__": ["c1_qconv2d", "c2_qbatchnormalization"]}, {}),
       ("QScaleShift", {"use_bias": True},
        {"weight_quantizer": fx, "bias_quantizer": fx, "activation": relu}),
@@ -1338,7 +1402,8 @@ def canonical_models(profile):
         ("Conv2D", {"filters": 2, "kernel_size": [1, 1], "padding": "same",
                     "activation": "sigmoid"}, {}),
         ("QConv2D", {"filters": 2, "kernel_size": [2, 2], "strides": [1, 1],
-                     "padding": "valid", "dilation_rate": [1, 1], "use_bias": True},
+                     "padding": "valid", "dilation_rate": [1, 1], "use_bias": True,
+                     "mask": [[1, 0], [1, 1]], "mask_dtype": "bool"},
          {"kernel_quantizer": fx, "bias_quantizer": fx, "activation": None}),
         ("Conv2D", {"filters": 2, "kernel_size": [1, 1], "padding": "same",
                     "activation": "hard_sigmoid"}, {}),
